@@ -66,7 +66,10 @@ func Fields(r *rand.Rand, max int) []ref.FieldDef {
 		a := ValFields[r.Intn(len(ValFields))]
 		b := ValFields[r.Intn(len(ValFields))]
 		var f ref.FieldDef
-		switch r.Intn(13) {
+		switch r.Intn(15) {
+		case 13, 14:
+			// an IF-conditioned aggregate inside arithmetic (first and last operand, symmetric and not)
+			f = ref.FieldDef{Kind: []string{"ifsub", "subif", "ifmaxdivcount"}[r.Intn(3)], A: a, B: b, Cond: Pred(r, 1)}
 		case 0:
 			f = ref.FieldDef{Kind: "bare", A: a, Name: a}
 		case 1, 2:
